@@ -500,60 +500,64 @@ def _limits_and_chunks(ctx, quick, want):
     # ---- 1. TLC on the model instantiated with the chunk counts of the running code ------------------
     mcs = limits_mc_configs(quick)
     extract_params(ctx, mcs)
-    invs = (["Limits", "NoLeak"] + MODULO_KNOWN) if want == "C08" else (CHUNK_INVS + ["ChunksSufficeReqModuloKnown",
-                                                                                     "ChunksSufficeRespModuloKnown"])
+    invs = (["Limits", "NoLeak"] + MODULO_KNOWN) if want == "C08" else (CHUNK_INVS + MODULO_KNOWN)
     jobs = []
     for i, c in enumerate(mcs):
-        n = 4 if quick else 5
-        d, m = mc_instance(ctx, f"{want}_lim{i}", c, 1, 1, n, 2, n, invs, fifo=True, no_death=True, props=False)
+        n = 3 if quick else 4
+        d, m = mc_instance(ctx, f"{want}_lim{i}", c, 1, 1, n, 1 if quick else 2, n, invs, fifo=True, no_death=True,
+                           props=False, static_ports=True, no_hints=True, track_ids=(want == "C02"))
         jobs.append((run_mc, (ctx, d, m, f"ReqRes[{want} {key(c)} nreq={c['nreq']} nresp={c['nresp']}]",
-                              240 if quick else 900, 4, True, True, ["SendCopy", "ReceiveRequest", "SendCopyResponse"])))
-        # the plain formulas: a refutation is a counterexample to "no OutOfMemory inside the limits"
-        d2, m2 = mc_instance(ctx, f"{want}_suf{i}", c, 1, 1, n + 2, 2, n + 2, ["ChunksSufficeReq", "ChunksSufficeResp"],
-                             fifo=True, no_death=True, props=False)
-        jobs.append((run_mc, (ctx, d2, m2, f"ReqRes[{want} chunk formulas {key(c)}]", 240 if quick else 900, 4,
-                              False, False, None)))
-    results = parallel(jobs, 4)
-    cex_programs = []
+                              900 if quick else 1500, 4, True, True, ["SendCopy", "ReceiveRequest", "SendCopyResponse"])))
+        # the plain closed formulas: a refutation is a counterexample to "no OutOfMemory inside the limits";
+        # searched with the minimal API (copy API, the client never looks at the responses)
+        for f in ("FormulaReq", "FormulaResp"):
+            mn = c["nreq"] + 1 if f == "FormulaReq" else c["nreq"] + 2
+            d2, m2 = gen_instance(ctx, f"{want}_{f}{i}", c, 1, 1, mn, c["rb"], 80, True, f, minimal=True, wmax=0)
+            jobs.append((run_gen, (ctx, d2, m2, f"ReqResGen[{want} {f} {key(c)}]", 900 if quick else 1500, None, 4)))
+    results = parallel(jobs, 6)
+    witnesses = []
     for i, c in enumerate(mcs):
-        res, res2 = results[2 * i], results[2 * i + 1]
+        res = results[3 * i]
         if res.violated:
             report(ctx, vp.Violation(
                 f"TLC refutes {res.violated} for the request-response model instantiated with the chunk counts of "
                 f"the running code ({key(c)}: {c['nreq']} request chunks, {c['nresp']} response chunks)",
                 replay={"config": driver_cfg(c), "invariant": res.violated, "counterexample": cex_steps(res)},
                 signature=f"reqres:model:{res.violated}"))
-        if res2.violated:
-            cex_programs.append((c, res2.violated, cex_to_program(res2)))
-        elif not res2.ok:
-            raise vp.ToolError(f"TLC failed on chunk formulas {key(c)}: {res2.error}\n{res2.output[-2000:]}")
+        for k, f in ((1, "FormulaReq"), (2, "FormulaResp")):
+            r2, wit, _ = results[3 * i + k]
+            if r2.violated and wit:
+                witnesses.append((c, f, wit[0][1]))
+            elif r2.violated or r2.error:
+                raise vp.ToolError(f"TLC failed on {f} {key(c)}: {r2.violated} {r2.error}\n{r2.output[-2000:]}")
+    ctx.coverage.setdefault("formula_refutations", {})
     # ---- 2. counterexamples of the plain formulas are replayed on the real code -------------------------
-    for c, inv, prog in cex_programs:
-        loan = S("LoanRequest", 1) if inv == "ChunksSufficeReq" else None
-        steps = prog + ([loan] if loan else [])
-        if inv == "ChunksSufficeResp":
-            ars = [s for s in prog if s["a"] == "ReceiveRequest"]
-            steps = prog + [S("LoanResponseAny", 0, 1)]
-        trace, summ = exec_programs(ctx, c, [steps], f"{want}-cex-{key(c)}-{inv}")
+    for n, (c, f, w) in enumerate(witnesses):
+        info = w["info"]
+        tail = [S("LoanRequest", info["c"])] if f == "FormulaReq" else [S("LoanResponseAny", 0, info["s"])] * 2
+        steps = w["hist"] + tail
+        trace, summ = exec_programs(ctx, c, [steps], f"{want}-cex{n}-{f}")
         recs = vp.read_ndjson(trace)
         oom = [r for r in recs if r.get("k") == "op" and r["r"] == "OutOfMemory"]
         ctx.evaluations += summ["events"]
-        tag = "req-oom-undelivered-pending" if inv == "ChunksSufficeReq" else "resp-oom-stale-responses"
+        tag = "req-oom-undelivered-pending" if f == "FormulaReq" else "resp-oom-stale-responses"
+        ctx.coverage["formula_refutations"][f"{f} {key(c)}"] = "reproduced" if oom else "model only"
         if oom:
-            v = validate(ctx, c, trace, f"{want}cex{abs(hash(key(c) + inv)) % 10000}")
-            if tag in v.kd and v.accepted:
+            v = validate(ctx, c, trace, f"{want}cex{n}")
+            if v.accepted and tag in v.kd:
                 report(ctx, vp.Violation(
-                    f"{inv} is refuted by TLC for {key(c)} (chunks read from the code: {c['nreq']}/{c['nresp']}) and the "
-                    f"counterexample reproduces on the real code: {fmt_op(oom[0])} inside all limits",
-                    replay={"config": driver_cfg(c), "invariant": inv, "program": steps,
+                    f"{f}: TLC refutes 'no OutOfMemory inside the limits' for {key(c)} with the chunk counts read from the "
+                    f"code ({c['nreq']} request / {c['nresp']} response chunks) and the counterexample reproduces on the "
+                    f"real code: {fmt_op(oom[0])}",
+                    replay={"config": driver_cfg(c), "invariant": f, "program": steps,
                             "history": [fmt_op(r) for r in recs if r.get("k") == "op"]},
                     signature=KD_SIGNATURE[tag]))
+                ctx.traces_validated += 1
             else:
                 report_verdict(ctx, v, f"{want} counterexample replay", kd_filter)
         else:
-            ctx.note(f"{inv} refuted in the model for {key(c)} but the replay did not end in OutOfMemory "
-                     f"(model more pessimistic than the code here)")
-    # ---- 3. saturation witnesses + random histories with probes, validated by the trace specification ------
+            ctx.note(f"{f} refuted in the model for {key(c)} but the replay did not end in OutOfMemory")
+    # ---- 3. random histories with loan-to-exhaustion probes, validated by the trace specification --------
     jobs = []
     for i, c in enumerate(st["cfgs"]):
         trace, summ = gen_random(ctx, c, 12 if quick else 60, 60 if quick else 90, f"{want}-rnd-{key(c)}",
